@@ -185,6 +185,8 @@ def expected(case):
             if op.startswith("u") and f < 0 and t == 0:
                 return "Some(0)" if f > -1.0 else "None"
             return opt(hx(t))
+        if op == "powf":
+            return hx(I(3) ** I(4))
         if op in ("upow_big_rv", "upow_big_rr", "ipow_big", "ipow_big_rv", "ipow_u8", "ipow_u128", "upow_u64"):
             return hx(I(0) ** I(1))
         if op in ("uadd", "uadd_vv", "uadd_vr", "uadd_assign", "uadd_u32", "uadd_u64", "uadd_u128", "iadd", "iadd_vv", "iadd_vr", "iadd_rv", "iadd_assign", "iadd_i64"):
@@ -333,6 +335,12 @@ def expected(case):
             return "Some(%d)" % I(0) if -128 <= I(0) < 128 else "None"
         if op in ("uto_f64", "ito_f64"):
             return f64bits(I(0))
+        if op == "shlf":
+            # value +-2^k: a power of two is exact below the exponent limit and infinite from it on
+            k, neg = I(2), a[0] == "-"
+            if a[1] == "64":
+                return "%016x" % ((0x8000000000000000 if neg else 0) | ((k + 1023) << 52 if k < 1024 else 0x7ff0000000000000))
+            return "%08x" % ((0x80000000 if neg else 0) | ((k + 127) << 23 if k < 128 else 0x7f800000))
         if op == "uto_f32":
             return f32bits(I(0))
         if op in ("ufrom_u64", "ufrom_u128", "ifrom_i64", "ifrom_i128"):
@@ -1182,6 +1190,14 @@ def bank(pid, tier, seed):
             for extra in (0, 1 << rb, (1 << rb) + 1, (1 << rb) - 1 if rb else 0, (1 << rb) + (1 << (rb // 2)), (3 << rb)):
                 cases.append(("uto_f32", hx(base + extra)))
             cases.append(("uto_f32", hx((1 << (hi + 1)) - 1)))
+        # powers of two around the exponent limits, and bit lengths at which `bits() - 64` no longer fits i32 / u32 (a 2^31- or 2^32-bit value
+        # is 256 / 512 MiB, so these are built inside the driver)
+        for k in (0, 1, 63, 64, 126, 127, 128, 129, 1022, 1023, 1024, 1025, 4096, (1 << 31) + 63, (1 << 31) + 64, (1 << 32) + 63, (1 << 32) + 64, (1 << 32) + 70, (1 << 32) + 63 + 1023):
+            if tier == "quick" and k > (1 << 31) + 64 and k != (1 << 32) + 70:
+                continue
+            for w in ("64", "32"):
+                cases.append(("shlf", "u", w, hx(k)))
+                cases.append(("shlf", "-", w, hx(k)))
         # from_f64 with fractional parts, random mantissas and every exponent class
         for ex in (-1080, -1074, -1022, -60, -53, -2, -1, 0, 1, 5, 51, 52, 53, 54, 62, 63, 64, 65, 127, 128, 500, 1023):
             for _ in range(3):
@@ -1241,6 +1257,15 @@ def bank(pid, tier, seed):
                 for op in ("ipow_big", "ipow_big_rv", "ipow_u8", "ipow_u128"):
                     cases.append((op, hx(-a), hx(e)))
                     cases.append((op, hx(a), hx(e)))
+        # every Pow form: {BigUint, BigInt} x {u8..u128, usize, BigUint exponent} x {base, exponent by value / by reference}
+        for a in (0, 1, 2, 3, B64 + 1):
+            for e in (0, 1, 2, 3, 6, 7):
+                for ty in ("u8", "u16", "u32", "u64", "usize", "u128", "big"):
+                    for form in ("vv", "vr", "rv", "rr"):
+                        cases.append(("powf", "u", ty, form, hx(a), hx(e)))
+                        cases.append(("powf", "i", ty, form, hx(-a), hx(e)))
+                        if a > 1 and e in (2, 3):
+                            cases.append(("powf", "i", ty, form, hx(a), hx(e)))
         # exponents with every pattern of trailing zero bits and set bits, a few hundred; BigUint exponents at the u64 / u128 edges (bases 0, 1)
         for a in (2, 3, -3, 10, B64 - 1, -(B64 + 1)):
             for e in (14, 18, 20, 24, 28, 36, 40, 48, 63, 65, 96, 129, 192, 200, 256, 300, 384, 511, 512):
